@@ -74,17 +74,20 @@ func (d *DefaultMetricLogWriter) Write(ts uint64, items []*base.MetricItem) erro
 		return nil
 	}
 	if timeSec > d.latestOpSec {
+		// Roll to the next day's file first: the index entry of this second has to go into the index of
+		// the file that will hold its lines. (Written before the roll it ended up in the previous file's
+		// index, pointing at that file's end, and the lines became unreachable once that file was removed.)
+		if d.isNewDay(d.latestOpSec, timeSec) {
+			if err := d.rollToNextFile(ts); err != nil {
+				return errors.Wrap(err, "failed to roll the metric log")
+			}
+		}
 		pos, err := util.FilePosition(d.curMetricFile)
 		if err != nil {
 			return errors.Wrap(err, "cannot get current pos of the metric file")
 		}
 		if err = d.writeIndex(timeSec, pos); err != nil {
 			return errors.Wrap(err, "cannot write metric idx file")
-		}
-		if d.isNewDay(d.latestOpSec, timeSec) {
-			if err = d.rollToNextFile(ts); err != nil {
-				return errors.Wrap(err, "failed to roll the metric log")
-			}
 		}
 	}
 	// Write and flush
